@@ -35,6 +35,7 @@ class ClientRun:
         self.auto_reconnect_on_timeout = False
         self.reconnect_in_on_close = False
         self.on_close_sleep_ms = 0
+        self.slow_on_close_ms = 0
         self.current = -1
 
     def ev(self, e):
@@ -68,6 +69,8 @@ class ClientRun:
                     await rsocket.reconnect()
                     if R.on_close_sleep_ms:
                         await asyncio.sleep(R.on_close_sleep_ms / 1000.0)      # ... and goes on with some slow clean-up of its own
+                elif R.slow_on_close_ms:
+                    await asyncio.sleep(R.slow_on_close_ms / 1000.0)          # an on_close that takes its time (examples/client_reconnect.py)
 
         for i, t in enumerate(self.transports):
             def on_sent(entry, i=i):
